@@ -7,7 +7,7 @@
    passage of time, in any interleaving.  T is the timeout, lat the lateness allowed to each
    timer and to the start of the command (timers are never early).  "Stopped" means dead or
    sent SIGKILL by the executor: a process that was sent SIGKILL runs no user code any more. *)
-From PlzV Require Import Base.Harness Gen.KillTimings Model.C30 Proof.C30.
+From PlzV Require Import Base.Harness Gen.KillTimings Model.C30_deadline Model.C30 Proof.C30 Proof.C30_deadline.
 Local Open Scope N_scope.
 
 Definition stopped (p : proc) : Prop := alive p = false \/ got_kill p = true.
@@ -111,7 +111,53 @@ Proof.
 Qed.
 Print Assumptions C30_partial.
 
+(* ---- the deadline itself (Model/C30_deadline.v) ----
+   "Exceeds its timeout" speaks of the timeout the target DECLARES.  The duration that reaches
+   ExecWithTimeout is target.BuildTimeout / target.Test.Timeout, computed by createTarget through
+   sizeAndTimeout from the rule's timeout argument, its size and the configured default;
+   Gen.size_and_timeout_prog is that function statement by statement.  For every configuration
+   (any size table, any defaults) and every rule call that is accepted: the deadlines are the
+   documented ones (explicit timeout > size > default); in particular an explicit positive timeout of
+   z seconds is the deadline whatever size is declared; and the protocol theorems hold relative to
+   exactly that deadline, for the build action and for the test action. *)
+Definition C30_deadline_statement : Prop :=
+  forall (c : dconfig) (d : decl) (b : Z) (t : option Z), create_target c d = TOk b t ->
+    create_target_with deadline_spec c d = TOk b t
+    /\ (forall z, d_build d = TInt z -> (0 < z)%Z -> b = (z * 1000000000)%Z)
+    /\ (forall z u, d_test d = TInt z -> (0 < z)%Z -> t = Some u -> u = (z * 1000000000)%Z)
+    /\ forall ns, ns = b \/ t = Some ns ->
+       forall (lat : N) (tr : list event) (st : state), run linux (deadline_ms ns) lat init tr = Some st ->
+         timing linux (deadline_ms ns) lat st
+         /\ (forall r, ctl st = PcRet r ErrDeadline -> forall p, In p (procs st) -> in_group p = true -> stopped p).
+
+Theorem C30_deadline : C30_deadline_statement.
+Proof.
+  intros c d b t H. split; [rewrite <- create_target_precedence; exact H|].
+  split; [exact (fun z Hb Hz => explicit_build_timeout_wins c d b t z H Hb Hz)|].
+  split; [intros z u Ht Hz Hu; subst t; exact (explicit_test_timeout_wins c d b u z H Ht Hz)|].
+  intros ns _ lat tr st Hr. destruct C30_partial as [_ HP]. destruct (HP (deadline_ms ns) lat tr st Hr) as (Htim & Hg & _).
+  split; [exact Htim|exact Hg].
+Qed.
+Print Assumptions C30_deadline.
+
 (* ---- non-vacuity ---- *)
+(* a test declared `size = "small", timeout = 2` under the default configuration: the deadline of the test
+   action is 2 s (not the minute of the size), the build action has the size's minute; a hanging test is
+   reported at 2000 + 30 + 1000 ms *)
+Example C30_deadline_nonvacuous :
+  let cfg := mkDconfig [(s "small", 60000000000%Z); (s "short", 60000000000%Z)] 600000000000%Z 600000000000%Z in
+  create_target cfg (mkDecl (Some (s "small")) (TInt 0) (TInt 2) true) = TOk 60000000000%Z (Some 2000000000%Z)
+  /\ deadline_ms 2000000000 = 2000
+  /\ create_target cfg (mkDecl None (TInt 0) (TInt 0) true) = TOk 600000000000%Z (Some 600000000000%Z)
+  /\ create_target cfg (mkDecl (Some (s "huge")) (TInt 0) (TInt 2) true) = TFail
+  /\ (exists st, run linux (deadline_ms 2000000000) 0 init [CStart true no_sandbox; Tick 2000; CDeadline; Tick 30; CExpire; Tick 1000; CExpire] = Some st
+                 /\ ctl st = PcRet 3030 ErrDeadline).
+Proof.
+  cbv zeta. split; [vm_compute; reflexivity|]. split; [vm_compute; reflexivity|]. split; [vm_compute; reflexivity|]. split; [vm_compute; reflexivity|].
+  eexists; split; [vm_compute; reflexivity|reflexivity].
+Qed.
+
+(* ---- non-vacuity of the protocol theorems ---- *)
 (* a timed-out run that reaches the end of both waits: process 1 ignores SIGTERM and is still
    alive when the timeout is reported at 300 + 30 + 1000 ms, but it was sent SIGKILL; process 2
    left the group before the deadline, holds the pipes (so cmd.Wait() never returns) and survives *)
